@@ -466,6 +466,17 @@ def _drain_h(pid, dep, m, tiers):
 for (dep, m, tiers) in ((1, 3, T), (0, 3, T), (1, 4, X)):
     _c15.append(_drain_h('C15', dep, m, tiers))
 _c09.append(_drain_h('C09', 1, 3, Q))
+for (dep, tiers) in ((1, T), (2, X)):
+    B = 'nested::bmoc::'
+    us = dict(_bmoc_unwindset(1, 1, dep, 2))
+    us.update({B + 'BMOCBuilderFixedDepth::buff_to_bmoc#0': 2, B + 'BMOCBuilderFixedDepth::largest_lower_cell_sequence_len#0': 2,
+               B + 'BMOC::create_unsafe_copying#0': 2, 'verif_common::spec_scan#0': 9})
+    _c15.append(H('c15_merge_d%d' % dep, 'k_fixed_merge(%d);' % dep, tiers=tiers, timeout=2400, mem_gb=16, unwind=3, unwindset=us,
+                  stubs=_bmoc_stubs('verif_c15') + _bmoc_cut_pack('verif_c15'),
+                  inputs=[('is_full', 'bool'), ('d0', 'u8'), ('h0', 'u64'), ('p0', 'u64'), ('c', 'u64')],
+                  replay='fixed_merge', replay_const={'depth': dep},
+                  covers=['flushed cell inside the accumulated coarse cell'],
+                  domain='BMOCBuilderFixedDepth::drain_buffer at depth %d across a flush: accumulated BMOC = one symbolic cell of any depth <= %d (merged or not), buffer = one symbolic cell, symbolic flag, symbolic probe cell (end to end this is up to 4^%d + 1 pushes over two flushes)' % (dep, dep, dep)))
 PROPS['C15'] = dict(
     inject=[dict(host='src/nested/bmoc.rs', mod='verif_c15', parts=['props/c07.rs', 'kani/c07.rs', 'props/c09.rs', 'kani/c09.rs'])],
     harnesses=_c15,
@@ -474,7 +485,7 @@ PROPS['C15'] = dict(
                'slice::sort_unstable', 'Vec::dedup'],
     bounds={'quick': 'pack: every valid sequence of 4 entries at depth_max 1 and of 2 entries at depth_max 2; lower depth: 2 entries, 2->1 and 1->0 (packing); '
                      'fixed-depth builder: depth 1, (capacity, pushes) in {(3,2),(1,2),(4,1),(4,0)} (2 pushes in any order, duplicates included); its merge step buff_to_bmoc alone: every strictly increasing buffer of 4 cells at depths 0 and 1',
-            'thorough': 'pack: 3 and 4 entries at depth_max 2; lower depth: 3 entries, 2->0; buff_to_bmoc on 4 cells at depth 2 and 3 cells at depth 1; fixed-depth builder end to end (sort model, 40 GB): 2 pushes capacity 2 depth 1 (other shapes, e.g. 4 pushes capacity 4 -- out of memory at 40 GB: tier extended); one whole drain_buffer step from the initial state on every buffer of 3 cells push can leave (any order, late duplicates), depths 0 and 1'},
+            'thorough': 'pack: 3 and 4 entries at depth_max 2; lower depth: 3 entries, 2->0; buff_to_bmoc on 4 cells at depth 2 and 3 cells at depth 1; fixed-depth builder end to end (sort model, 40 GB): 2 pushes capacity 2 depth 1 (other shapes, e.g. 4 pushes capacity 4 -- out of memory at 40 GB: tier extended); one whole drain_buffer step from the initial state on every buffer of 3 cells push can leave (any order, late duplicates), depths 0 and 1; the step across a buffer flush (accumulated BMOC of one symbolic cell of any depth + one buffered cell), depth 1'},
     outside='push sequences longer than 4, sequences longer than 4 entries; in the fixed-depth builder harnesses the packing step of `or` is cut (pack is decided by the pack harnesses) '
             'and std slice::sort_unstable is replaced by an insertion-sort model (<= 4 elements, asserted)',
     assumptions=_BMOC_ASSUME,
